@@ -27,7 +27,7 @@ ASSUMPTIONS = ['deterministic dividers (set, split of even integers, zero)',
                'states given to _add / _generate only name declared variables',
                'Store-level: operations are applied directly with Store.apply_update (engine-level histories are C10)']
 
-KINDS = ['delete_reissued', 'add', 'add_dup', 'add_existing', 'delete', 'delete_path', 'delete_var', 'generate', 'divide', 'move', 'move_update',
+KINDS = ['add_leaf', 'delete_reissued', 'add', 'add_dup', 'add_existing', 'delete', 'delete_path', 'delete_var', 'generate', 'divide', 'move', 'move_update',
          'combo', 'plain']
 
 
@@ -35,8 +35,14 @@ def gen(r, tier, i):
     A, B = ['a', 'b'], []
     fresh = ['g%d' % k for k in range(1, 9)]
     batches = []
+    nleaf = 0
     for _ in range(r.randint(1, 8)):
         kind = r.choice(KINDS)
+        if kind == 'add_leaf':
+            # a child of a glob store of plain variables, created with a (possibly falsy) value of its own
+            nleaf += 1
+            batches.append([['add_leaf', 'L', 'l%d' % nleaf, r.choice([0, 0.0, False, '', 7, 'x', 2.5])]])
+            continue
         port = r.choice(['A', 'A', 'B'])
         here, there = (A, B) if port == 'A' else (B, A)
         tport = 'B' if port == 'A' else 'A'
@@ -121,12 +127,13 @@ def run(spec):
 
     class Keeper(Process):
         def ports_schema(self):
-            return {'other': {'z': {'_default': 7}, 'w': {'_default': [1, 2], '_updater': 'set'}}}
+            return {'other': {'z': {'_default': 7}, 'w': {'_default': [1, 2], '_updater': 'set'}},
+                    'L': {'*': {'_default': 5, '_updater': 'set'}}}
 
         def next_update(self, timestep, states):
             return {}
-    comp.merge(processes={'keeper': Keeper({'tag': 'keeper'})}, topology={'keeper': {'other': ('other',)}}, path=base)
-    init = {'B': {}, 'A': {a: {'st': {'n': spec['n0'][a]}} for a in ('a', 'b')}}
+    comp.merge(processes={'keeper': Keeper({'tag': 'keeper'})}, topology={'keeper': {'other': ('other',), 'L': ('L',)}}, path=base)
+    init = {'B': {}, 'L': {'l0': 1}, 'A': {a: {'st': {'n': spec['n0'][a]}} for a in ('a', 'b')}}
     for k in reversed(base):
         init = {k: init}
     try:
@@ -137,7 +144,7 @@ def run(spec):
         return {'viol': list(V), 'evals': V.evals, 'nontrivial': False}
     dir_store = store.get_path(('dir',))
     shadow = {'A': {a: cell_shadow(a, spec['n0'][a], der) for a in ('a', 'b')}, 'B': {},
-              'dir': ('P', 'dir'), 'keeper': ('P', 'keeper'), 'clk': 0.0, 'other': {'z': 7, 'w': [1, 2]}}
+              'dir': ('P', 'dir'), 'keeper': ('P', 'keeper'), 'clk': 0.0, 'other': {'z': 7, 'w': [1, 2]}, 'L': {'l0': 1}}
 
     def real_tree():
         def conv(t):
@@ -170,6 +177,22 @@ def run(spec):
     intact_evals = 0
     intact_viol = []
     for ops in spec['batches']:
+        if ops[0][0] == 'add_leaf':
+            _, port, key, val = ops[0]
+            try:
+                store.apply_update({port: {'_add': [{'key': key, 'state': val}]}}, dir_store)
+            except Exception as ex:
+                V.check('tree_matches_shadow', False, ('_add of a leaf child raised', type(ex).__name__, str(ex)[:200], ops))
+                break
+            shadow = copy.deepcopy(shadow)
+            shadow[port][key] = val
+            got = real_tree()
+            applied += 1
+            kinds_seen.add('add_leaf')
+            if not V.check('tree_matches_shadow', got == shadow and type(got.get(port, {}).get(key)) is type(val),
+                           lambda: ('an added leaf child does not hold the given state', ops, _ddiff(shadow, got))):
+                break
+            continue
         if ops[0][0] == 'delete_reissued':
             # an update belongs to the process that returned it: the same object handed in again (after the
             # child was added back) must be carried out again
